@@ -59,3 +59,59 @@ def run(ctx):
     extra = [n for n in names if not n.startswith(db.instances[root].path)]
     if extra:
         r.fail(rule, key + ':extra', 'recursion cycle through functions without a termination witness: ' + ', '.join(extra), loc=b.loc)
+    cleanup_complete(ctx)
+
+
+def cleanup_complete(ctx, rule='reference-cleanup-complete'):
+    """no dangling references, structural part: when a node's references are deleted, the neighbours' forward lists are
+    cleaned with a retain over the whole list whose predicate compares the target with the deleted node (not a first-match
+    removal), the neighbours' inverse sets lose the deleted node, and both the forward list and the inverse set of the
+    deleted node itself are removed"""
+    r, db = ctx.r, ctx.db
+    R = 'server::address_space::references::References::'
+    hb = [b for b in db.find_bodies(r'^' + re.escape(R) + r'remove_node_from_referenced_nodes(::\{closure#\d+\})*$')]
+    if not hb:
+        r.lost(rule, 'helper', 'remove_node_from_referenced_nodes not found'); return
+    calls = [(b, c) for b in hb for c in b.calls()]
+    short = [c for b, c in calls if re.search(r'Iterator::(position|find|take|next|nth)$|Vec::(remove|swap_remove|pop|truncate)$', c.callee)]
+    retains = [c for b, c in calls if c.callee.endswith('Vec::retain')]
+    setrem = [c for b, c in calls if re.search(r'HashSet::remove$', c.callee)]
+    n = 0
+    if short or len(retains) != 1:
+        r.fail(rule, 'forward-lists', 'the forward lists of the neighbours are not cleaned with a single retain over the whole list (%s): a second reference of another '
+               'type to the deleted node stays behind' % ([c.callee.rsplit('::', 1)[-1] for c in short] or 'retain calls: %d' % len(retains)), loc=hb[0].loc)
+    else:
+        # predicate: target_node != node_to_remove
+        preds = [b for b in hb if b.locals[0] == 'bool']
+        okp = False
+        for p in preds:
+            Fp = ctx.facts(p)
+            for d in p.defs().get(0, []):
+                t = fmt_sym(p, Fp.sym_rvalue(d[3], 0, d[1])) if d[0] == 'stmt' else (d[2].callee + '(' + ', '.join(fmt_sym(p, Fp.sym_operand(a)) for a in d[2].args) + ')')
+                if re.search(r'(PartialEq::ne|Ne)', t) and 'target_node' in t and 'node_to_remove' in t:
+                    okp = True
+        n += 1
+        if okp:
+            r.ok(rule, 'forward-lists', 'retain(|r| r.target_node != node_to_remove) over each neighbour list', loc=retains[0].loc)
+        else:
+            r.fail(rule, 'forward-lists', 'the retain predicate does not compare the target of each reference with the deleted node', loc=retains[0].loc)
+    n += 1
+    if len(setrem) == 1:
+        r.ok(rule, 'inverse-sets', 'the deleted node is removed from the inverse set of each neighbour', loc=setrem[0].loc)
+    else:
+        r.fail(rule, 'inverse-sets', 'the inverse sets of the neighbours are not updated with exactly one HashSet::remove (found %d)' % len(setrem), loc=hb[0].loc)
+    db_ = db.body(R + 'delete_node_references')
+    if db_ is None:
+        r.lost(rule, 'delete_node_references', 'not found')
+    else:
+        F = ctx.facts(db_)
+        rem = [fmt_sym(db_, F.sym_operand(c.args[0])).rsplit('.', 1)[-1] for c in db_.calls() if c.callee.endswith('HashMap::remove') and len(c.args) == 2 and
+               fmt_sym(db_, F.sym_operand(c.args[1])).startswith('&(*source_node')]
+        helper = [c for c in db_.calls() if c.callee.endswith('remove_node_from_referenced_nodes')]
+        n += 1
+        if sorted(rem) == ['referenced_by_map', 'references_map'] and len(helper) == 2:
+            r.ok(rule, 'delete_node_references', 'both maps lose the entry of the deleted node and both neighbour sets are cleaned', loc=db_.loc)
+        else:
+            r.fail(rule, 'delete_node_references', 'delete_node_references removes %s and cleans %d neighbour set(s): expected both maps and both directions' % (rem, len(helper)), loc=db_.loc)
+    r.count('cleanup_sites', n)
+    r.floor(rule, 'cleanup_sites', n, 3)
